@@ -178,6 +178,10 @@ func newC03Env(c *CfgSpec) (*c03Env, error) {
 			e.origins = append(e.origins, v)
 		}
 	}
+	if hashString(specKey(c))&1 == 0 {
+		poisonRound(e.mw[0], e.allowed[0]) // hostile wrapped handler first (see poisonRound)
+		poisonRound(e.mw[1], e.allowed[0])
+	}
 	// cross probes: scheme/host of one configured pattern with the port of another, and vice versa
 	for _, p := range e.sem.Pats {
 		for _, q := range e.sem.Pats {
